@@ -26,6 +26,17 @@ pub fn panic_class(prefix: &str, msg: &str) -> String {
 }
 
 pub fn draw_job(rng: &mut Rng, c: &Corpus) -> Job {
+    if rng.chance(1, 25) {
+        // an inclusion-heavy tree of the C14 generator (data files of every
+        // size including empty ones, inclusion functions in rules, functions
+        // and asm blocks, cycles, #once): the success/failure contract must
+        // hold there too, under every single fault on one of its files
+        let mut case = crate::c14::draw_case(rng);
+        case.fault = None;
+        let mut job = case.render();
+        job.name = format!("c14case:{}", job.name);
+        return job;
+    }
     let k = rng.below(100);
     if k >= 86 {
         // generated programs (many symbols and asm blocks, ambiguous mnemonic
